@@ -168,6 +168,11 @@ static ASMJIT_INLINE bool check_op_sig(const InstDB::OpSignature& op, const Inst
     if (ref.has_flag(InstDB::OpFlags::kFlagMemBase) && !op.has_flag(InstDB::OpFlags::kFlagMemBase)) {
       return false;
     }
+
+    // Fail if the base register is not the one the instruction implies (string instructions - `es:[zdi]`, `ds:[zsi]`).
+    if (ref.reg_mask() && !Support::test(op.reg_mask(), ref.reg_mask())) {
+      return false;
+    }
   }
 
   // Fail if register indexes do not match.
